@@ -290,6 +290,15 @@ class Runner:
         except Exception as e:
             self.fail("unparseable answer of divide (%s): %s" % (e, a[:100])); return
         self.count("divide_" + ("some" if d["some"] else "none"))
+        # "a plane through the mother's centroid": the point the code used is the area-weighted centroid of the surface
+        P2 = {}
+        for ids, tri in d["before"]:
+            for i in range(3):
+                P2[ids[i]] = tri[i]
+        ctrue = U.centroid_of(P2, [ids for ids, _ in d["before"]])
+        size = math.sqrt(U.area_geo(d["before"]))
+        if U.norm(U.sub(ctrue, d["ctr"])) > 1e-6 * size + 1e-9 * U.norm(ctrue):
+            self.fail("divide_cell: the division plane passes through %r, the centroid of the mother's surface is %r" % (d["ctr"], ctrue))
         if U.canon_geo(d["before"]) != U.canon_geo(d["after"]):
             self.fail("divide_cell changed the mother's surface (%s): %d triangles before, %d after" % ("success" if d["some"] else "failed division", len(d["before"]), len(d["after"])),
                       key=None)
